@@ -325,10 +325,16 @@ def p4(prog, rep):
     rep.check(set(ins) == {("events_immediate_register", "TAILQ_INSERT_TAIL")}, "P4-queue", "the only insertion is at the tail, in the registration", reg.loc,
               "insertions found: %s" % sorted(ins), function="events_immediate_register", construct="insert-tail")
     # the tail insertion goes into heads[prio]
-    heads_idx = set()
-    for e in reg.all_elems():
-        if "TAILQ_INSERT_TAIL" in e.macro and e.cls == "ArraySubscriptExpr" and norm(e.kid(0))[0] == "v" and norm(e.kid(0))[1] == "heads":
-            heads_idx.add(show(norm(e.kid(1))))
+    def heads_index(fn, macro):
+        """indices i of every heads[i] (however written: &heads[i], heads + i) inside the expansions of `macro` in fn"""
+        out = []
+        for e in fn.all_elems():
+            if macro in e.macro:
+                for t in subterms(norm(e)):
+                    if isinstance(t, tuple) and t and t[0] == "[]" and t[1][0] == "v" and t[1][1] == "heads":
+                        out.append(show(t[2]))
+        return out
+    heads_idx = set(heads_index(reg, "TAILQ_INSERT_TAIL"))
     rep.check(heads_idx == {"prio"}, "P4-queue", "insertion into heads[prio]", reg.loc, "%s" % sorted(heads_idx), function=reg.name, construct="insert-index")
     # q->prio = prio recorded (cancel needs it)
     pr = [e for e in reg.all_elems() if e.is_assign and norm(e.kid(0))[0] == "." and norm(e.kid(0))[2] == "prio" and norm(e.kid(1))[0] == "v" and norm(e.kid(1))[1] == "prio"]
@@ -351,23 +357,23 @@ def p4(prog, rep):
         guards = [(op, show(L), show(R)) for cond, truth in get.edge_conds(incs[0]) for op, L, R, _, _ in cond_atoms(cond, truth)]
         ok = any(op == "<" and l == "minq" and r == "32" for op, l, r in guards) and any(op == "==" and "heads[minq]" in l and r == "0" for op, l, r in guards)
     rep.check(ok, "P4-queue", "get advances minq only past a queue it found empty", get.loc, "", function=get.name, construct="minq-advance")
-    firsts = [e for e in get.all_elems() if "TAILQ_FIRST" in e.macro and e.cls == "ArraySubscriptExpr" and norm(e.kid(0))[0] == "v" and norm(e.kid(0))[1] == "heads"]
-    rem = [e for e in get.all_elems() if "TAILQ_REMOVE" in e.macro and e.cls == "ArraySubscriptExpr" and norm(e.kid(0))[0] == "v" and norm(e.kid(0))[1] == "heads"]
-    ok = bool(firsts) and bool(rem) and all(show(norm(e.kid(1))) == "minq" for e in firsts + rem) and not any("TAILQ_LAST" in e.macro for e in get.all_elems())
+    firsts = heads_index(get, "TAILQ_FIRST")
+    rem = heads_index(get, "TAILQ_REMOVE")
+    ok = bool(firsts) and bool(rem) and all(x == "minq" for x in firsts + rem) and not any("TAILQ_LAST" in e.macro for e in get.all_elems())
     rep.check(ok, "P4-queue", "get takes the head of heads[minq]", get.loc, "", function=get.name, construct="take-head")
     # empty answer exactly when minq reached 32
     nulls = [r for r in get.returns() if norm(r.kid(0)) == ("c", 0)]
     ok = len(nulls) == 1 and any(op == "==" and show(L) == "minq" and R == ("c", 32) for cond, truth in get.edge_conds(nulls[0]) for op, L, R, _, _ in cond_atoms(cond, truth))
     rep.check(ok, "P4-queue", "get reports empty exactly when every priority was passed", get.loc, "", function=get.name, construct="empty")
     # cancel removes from the queue of the recorded priority
-    remc = [e for e in can.all_elems() if "TAILQ_REMOVE" in e.macro and e.cls == "ArraySubscriptExpr" and norm(e.kid(0))[0] == "v" and norm(e.kid(0))[1] == "heads"]
+    remc = heads_index(can, "TAILQ_REMOVE")
     pinit = None
     for e in can.all_elems():
         if e.cls == "DeclStmt":
             for d in e.decls or []:
                 if d["name"] == "prio" and d.get("init") is not None:
                     pinit = norm(can.elem(d["init"]))
-    rep.check(bool(remc) and all(show(norm(e.kid(1))) == "prio" for e in remc) and pinit is not None and pinit[0] == "." and pinit[2] == "prio", "P4-queue",
+    rep.check(bool(remc) and all(x == "prio" for x in remc) and pinit is not None and pinit[0] == "." and pinit[2] == "prio", "P4-queue",
               "cancel unlinks from the queue of the node's own priority", can.loc, "", function=can.name, construct="cancel-queue")
 
 
